@@ -46,6 +46,10 @@ class Spec:
     def describe(self, case):
         return case
 
+    def trace_violation(self, case, impl):
+        """black-box property predicate on the implementation's trace: None, or (fingerprint, text)"""
+        return None
+
     def derived(self, label, cases, impl):
         """cases for a second model derived from the harness output: (cases, expected)"""
         return [], []
@@ -87,6 +91,7 @@ def check(spec, tier, seed, replay=None):
     cells = {}
     dist = collections.Counter()
     mismatches = []
+    predicate_hits = []
     samples = []
     total = 0
     validated = 0
@@ -121,6 +126,9 @@ def check(spec, tier, seed, replay=None):
                 validated += 1
             else:
                 mismatches.append((c, i, m, label))
+            pv = spec.trace_violation(c, i)
+            if pv is not None:
+                predicate_hits.append((c, i, m, label, pv))
         if cases:
             for k in rnd.sample(range(len(cases)), min(3, len(cases))):
                 if len(samples) < 8 and len(cases[k]) < 400:
@@ -142,6 +150,8 @@ def check(spec, tier, seed, replay=None):
         fails, fp, text = spec.classify(c, i, m)
         g = groups.setdefault((fails, fp), [])
         g.append((c, i, m, label, text))
+    for c, i, m, label, (fp, text) in predicate_hits:
+        groups.setdefault((True, fp), []).append((c, i, m, label, text))
     unknown_fail = []
     for (fails, fp), g in sorted(groups.items(), key=lambda kv: (not kv[0][0], kv[0][1])):
         g.sort(key=lambda x: (len(x[0].split()), x[0]))
@@ -190,6 +200,7 @@ def check(spec, tier, seed, replay=None):
         "runs": {k: v for k, v in stats.items()},
         "traces_validated_against_impl": validated,
         "disagreements_checked": len(mismatches),
+        "predicate_hits": len(predicate_hits),
         "vm_compute_crosschecked": crosschecked,
         "known_findings_matched": len(res.known),
         "design_ref": spec.design_ref,
